@@ -187,6 +187,13 @@ def _parse_family():
         for t in owners[a]:
             fam.append(rejected("attr", t, "#[%s(ignore)] struct X { a: u8 }" % a, True, "cannot specify `ignore` for type"))
             fam.append(rejected("derive", "", "#[derive_ex(%s)] enum X { #[%s(reverse)] A(u8) }" % (t, a), True, "cannot specify `reverse` for enum variants"))
+    # ... and by none of the others: with only a trait derived that the attribute does not affect, the attribute is somebody else's - whatever it says is not derive_ex's to judge
+    traits = ["Ord", "PartialOrd", "Eq", "PartialEq", "Hash"]
+    for a in owners:
+        for t in traits:
+            if t not in owners[a]:
+                fam.append(rejected("derive", "", "#[derive_ex(%s)] struct X { #[%s(ignore)] a: u8, b: u8 }" % (t, a), False))
+                fam.append(rejected("derive", "", "#[derive_ex(%s)] enum X { #[%s(reverse)] A(#[%s(key = $, by = f)] u8) }" % (t, a, a), False))
     return fam
 
 
